@@ -1,0 +1,94 @@
+//go:build verif
+
+package hashprefix
+
+// Contracts for govc (see /verif/DESIGN.md).  Comment-only file.
+
+//@ import internal github.com/AdguardTeam/AdGuardDNS/internal/filter/internal
+//@ import netutil github.com/AdguardTeam/golibs/netutil
+
+//@ immutable Filter.*, cacheItem.*
+
+// ---------------------------------------------------------------------------
+// C12: the result cache of a hash-prefix filter does not survive a refresh.
+//
+// hsVer[s] is the version of the hash set in storage s (Reset installs the
+// next one); itemVer[i] is the version a cached verdict was computed with;
+// cacheVer[f] is the version installed by the last completed refresh of f.
+//@ ghost hsVer map[*Storage]int
+//@ ghost itemVer map[*cacheItem]int
+//@ ghost cacheVer map[*Filter]int
+//@ ghost lastVerdictVer int
+//@ fun listedIn(s *Storage, ver int, host string) bool
+
+//@ func (*Storage).Reset
+//@   modifies hsVer[s]
+//@   ensures err == nil ==> hsVer[s] == old(hsVer[s]) + 1
+//@   ensures err != nil ==> hsVer[s] == old(hsVer[s])
+//@ func (*Storage).Matches
+//@   modifies nothing
+//@   ensures ok == listedIn(s, hsVer[s], host)
+
+//@ pred hpItem(f *Filter, k int) = toptr(acval[f.resCache][k], cacheItem)
+//@ pred HPI(f *Filter) = cacheVer[f] <= hsVer[f.hashes] && (forall k int :: achas[f.resCache][k] ==> allocated(hpItem(f, k)) && itemVer[hpItem(f, k)] >= cacheVer[f])
+
+// Requests look the cache up and fill it under the read lock; a refresh clears
+// it under the write lock after the new hashes are in place.  Whenever the
+// lock is free, no cached verdict is older than the last completed refresh.
+//@ lock Filter self.resCacheMu
+//@   protects achas, acval, cacheVer, itemVer
+//@   invariant HPI(self)
+
+//@ func hashableSubdomains
+//@   modifies nothing
+//@ func isFilterable
+//@   modifies nothing
+//@ func (*Filter).updateCacheLookupsMetrics
+//@   modifies nothing
+//@ func (*Filter).updateCacheSizeMetrics
+//@   modifies nothing
+//@ func (*Filter).filteredResult
+//@   modifies heap
+//@   ensures err == nil ==> isptr(r, internal.ResultModifiedRequest) || isptr(r, internal.ResultModifiedResponse)
+//@   ensures err == nil ==> ref(r) != 0
+//@ func (*Filter).clonedResult
+//@   modifies heap
+//@ func (*internal.ResultModifiedRequest).Clone
+//@   modifies heap
+//@ func (*internal.ResultModifiedResponse).Clone
+//@   modifies heap
+
+//@ func (*Filter).itemFromCache
+//@   property C12
+//@   held *
+//@   requires f != nil && f.logger != nil && ref(f.resCache) != 0
+//@   modifies cgetCache, cgetKey
+//@   ensures ok ==> item != nil && item.host == host && achas[f.resCache][key] && acval[f.resCache][key] == item
+//@   ensures !ok ==> item == nil
+
+//@ func (*Filter).setInCache
+//@   property C12
+//@   held *
+//@   requires f != nil && ref(f.resCache) != 0 && HPI(f) && (isptr(r, internal.ResultModifiedRequest) || isptr(r, internal.ResultModifiedResponse)) && ref(r) != 0
+//@   modifies heap, achas[f.resCache], acval[f.resCache], itemVer
+//@   atcall Set set itemVer[arg2] = hsVer[f.hashes]
+//@   ensures HPI(f)
+
+//@ func (*Filter).FilterRequest
+//@   property C12
+//@   requires f != nil && f.resCacheMu != nil && f.logger != nil && f.hashes != nil && ref(f.resCache) != 0 && req != nil
+//@   modifies heap, cgetCache, cgetKey, hst, ipBytes, achas, acval, itemVer, cacheVer, lastVerdictVer
+//@   atcall clonedResult set lastVerdictVer = itemVer[item]
+//@   atcall Matches set lastVerdictVer = hsVer[f.hashes]
+//@   atcall Set set itemVer[arg2] = hsVer[f.hashes]
+//@   ensures not-older-than-the-last-completed-refresh: r != nil ==> lastVerdictVer >= locked(cacheVer[f])
+//@   loop 1 invariant -1 <= #i && #i < len(sub) && HPI(f) && cacheVer[f] == locked(cacheVer[f])
+
+//@ func (*Filter).refresh
+//@   property C12
+//@   requires f != nil && f.resCacheMu != nil && f.logger != nil && f.hashes != nil && f.refr != nil && ref(f.resCache) != 0 && ref(f.metrics) != 0 &&
+//@            f.refr.logger != nil && f.refr.http != nil && f.refr.url != nil
+//@   modifies achas, acval, cacheVer, itemVer, cacheClears, hsVer[f.hashes], replaceCalls, replaces, cleanups, sbLen, copyFailed, lastRefreshText
+//@   atcall Clear set cacheVer[f] = hsVer[f.hashes]
+//@   ensures new-hashes-then-an-empty-cache: err == nil ==> hsVer[f.hashes] == old(hsVer[f.hashes]) + 1 && cacheClears[f.resCache] == old(cacheClears[f.resCache]) + 1
+//@   ensures failure-leaves-hashes-and-cache: err != nil ==> cacheClears[f.resCache] == old(cacheClears[f.resCache])
